@@ -292,3 +292,17 @@ _LM = {
 }
 for _p, _t in _LM.items():
     PROPS[_p]["rule"] = PROPS[_p]["rule"] + _t
+
+# ... and after the N series
+_N = {
+ "C02": " c02 also (N): 421 among the backend's verdicts.",
+ "C06": " c06 also (N): SIZE given more than once, the deciding value above the limit.",
+ "C09": " c09 also (N): exchanges that end with success together with additional data.",
+ "C12": " c12 also (N): sessions that implement AuthSession but offer no mechanism.",
+ "C13": " lmtp also (N): 421 among the per-recipient statuses and return values.",
+ "C16": " trip also (N): one shared error value per distinct refusal in the recording backend; Close must report the backend's code and text; 9 kB messages read to the end and refused.",
+ "C17": " trip also (N): the refusal of a later recipient after an accepted one (fifth error site).",
+ "C19": " scenario (N): a flood of junk commands from a peer that reads no reply, WriteTimeout set, over net.Pipe.",
+}
+for _p, _t in _N.items():
+    PROPS[_p]["rule"] = PROPS[_p]["rule"] + _t
